@@ -139,6 +139,7 @@ type qAcc struct{ all, np [3]float64 }
 
 // CheckQueueLimits is the C08 oracle on one cycle: running sums over the ordered call record.
 func CheckQueueLimits(w *World, rec *CycleRecord) ([]Finding, QueueFacts) {
+	w = rec.Effective(w)
 	var out []Finding
 	var facts QueueFacts
 	tree := w.QueueTree()
